@@ -88,17 +88,57 @@ func measureProposeTrims() bool {
 		}
 		time.Sleep(20 * time.Millisecond)
 	}
-	sawIn := false
-	for _, r := range resp.GetResponses() {
-		for _, kvp := range r.GetScan().GetKvs() {
-			if bytes.Compare(kvp.Key, []byte("b")) < 0 || bytes.Compare(kvp.Key, []byte("m")) >= 0 {
-				proposeWitness = fmt.Sprintf("region [b,m): CMD_SCAN from \"c\" via ProposeCommand returned key %q", kvp.Key)
-				return false
+	outOfRange := func(what string, resp *pb.RaftCmdResponse) bool {
+		for _, r := range resp.GetResponses() {
+			for _, kvp := range r.GetScan().GetKvs() {
+				if bytes.Compare(kvp.Key, []byte("b")) < 0 || bytes.Compare(kvp.Key, []byte("m")) >= 0 {
+					proposeWitness = fmt.Sprintf("region [b,m): %s via ProposeCommand returned key %q", what, kvp.Key)
+					return true
+				}
 			}
-			sawIn = true
+		}
+		return false
+	}
+	if outOfRange("CMD_SCAN from \"c\"", resp) {
+		return false
+	}
+	// batched commands that mix the scan with other kinds (a write before or after it, a get):
+	// the scan result must leave trimmed whatever else the command carries
+	hdr := func() *pb.CmdHeader {
+		return &pb.CmdHeader{RegionId: 101, RegionEpoch: &pb.RegionEpoch{Version: 1, ConfVer: 1}}
+	}
+	scanReq := func() *pb.Request {
+		return &pb.Request{CmdType: pb.CmdType_CMD_SCAN,
+			Cmd: &pb.Request_Scan{Scan: &pb.ScanRequest{StartKey: []byte("c"), Limit: 10, Version: 1000}}}
+	}
+	pre := func(k string, ts uint64) *pb.Request {
+		return &pb.Request{CmdType: pb.CmdType_CMD_PREWRITE, Cmd: &pb.Request_Prewrite{Prewrite: &pb.PrewriteRequest{
+			Mutations:   []*pb.Mutation{{Op: pb.Mutation_Put, Key: []byte(k), Value: []byte("w-" + k)}},
+			PrimaryLock: []byte(k), StartVersion: ts, LockTtl: 3000}}}
+	}
+	rb := func(k string, ts uint64) *pb.Request {
+		return &pb.Request{CmdType: pb.CmdType_CMD_BATCH_ROLLBACK, Cmd: &pb.Request_BatchRollback{BatchRollback: &pb.BatchRollbackRequest{
+			Keys: [][]byte{[]byte(k)}, StartVersion: ts}}}
+	}
+	getReq := &pb.Request{CmdType: pb.CmdType_CMD_GET, Cmd: &pb.Request_Get{Get: &pb.GetRequest{Key: []byte("c"), Version: 1000}}}
+	mixed := []struct {
+		what string
+		reqs []*pb.Request
+	}{
+		{"CMD_SCAN followed by CMD_PREWRITE", []*pb.Request{scanReq(), pre("d", 2000)}},
+		{"CMD_BATCH_ROLLBACK followed by CMD_SCAN", []*pb.Request{rb("d", 2000), scanReq()}},
+		{"CMD_GET followed by CMD_SCAN", []*pb.Request{getReq, scanReq()}},
+		{"two CMD_SCANs", []*pb.Request{scanReq(), scanReq()}},
+	}
+	for _, m := range mixed {
+		r, err := st.ProposeCommand(&pb.RaftCmdRequest{Header: hdr(), Requests: m.reqs})
+		if err != nil || r.GetRegionError() != nil {
+			continue // refused: nothing left the store
+		}
+		if outOfRange(m.what, r) {
+			return false
 		}
 	}
-	_ = sawIn
 	return true
 }
 
